@@ -183,14 +183,32 @@ def corr_layered(ctx):
         layers, tags = [], []
         for i in range(len(bounds) - 1):
             hi, lo = bounds[i], bounds[i + 1]
+            # the layers carry their OWN declared outside indices (explicit or None): the stack's declared indices are
+            # documented as "the index at the uppermost / lowermost boundary" and must not inherit these
+            la, lb = rng.choice([1.0, None, 1.11]), rng.choice([None, 1.0, 2.22])
             if rng.random() < 0.5:
-                layers.append(im.UniformIce(1.3 + 0.1 * i, valid_range=(lo, hi)))
+                layers.append(im.UniformIce(1.3 + 0.1 * i, valid_range=(lo, hi), index_above=la, index_below=lb))
             else:
-                layers.append(im.AntarcticIce(valid_range=(lo, hi)))
+                layers.append(im.AntarcticIce(valid_range=(lo, hi), index_above=la, index_below=lb))
         order = list(range(len(layers)))
         rng.shuffle(order)                      # the constructor sorts by depth
         ia, ib = rng.choice([1.0, None]), rng.choice([None, 1.95])
         li = LayeredIce([layers[i] for i in order], index_above=ia, index_below=ib)
+        # independent reading of the stack's declared indices (documentation of LayeredIce): the explicit value, else the
+        # in-ice index of the top layer at the uppermost boundary / of the bottom layer at the lowermost boundary
+        def _inside(layer, z):
+            if isinstance(layer, im.UniformIce):
+                return float(layer.n)
+            return float(layer.n0 - layer.k * math.exp(layer.a * z))
+        want_above = float(ia) if ia is not None else _inside(li.layers[0], bounds[0])
+        want_below = float(ib) if ib is not None else _inside(li.layers[-1], bounds[-1])
+        for nm, got, want in (("index_above", li.index_above, want_above), ("index_below", li.index_below, want_below)):
+            ctx.case(key=("layered-declared", tuple(bounds), nm, ia, ib))
+            if not close(float(got), want, 4e-16, 0):
+                ctx.fail("layered-declared:%s:%s" % (nm, bounds), "LayeredIce.%s = %r for a stack with boundaries %s built with index_above=%r, index_below=%r "
+                         "(layers' own declared indices %s); documented value: %r" % (nm, float(got), bounds, ia, ib,
+                         [(l.index_above, l.index_below) for l in li.layers], want),
+                         {"kind": "layered_declared", "bounds": bounds, "which": nm, "stack_index_above": ia, "stack_index_below": ib})
         ml = "[" + "; ".join("((%s, %s), M.Z.to_nat (%s))" % (rx.ocf(l.valid_range[0]), rx.ocf(l.valid_range[1]), "M.Zpos " + _pos(i + 1))
                              for i, l in enumerate(li.layers)) + "]"
         zs = list(bounds) + [float(np.nextafter(b, s)) for b in bounds for s in (-np.inf, np.inf)] + \
@@ -208,9 +226,9 @@ def corr_layered(ctx):
                 if tag:
                     src, ok = tag, n == float(li.layers[tag - 1].index(z))
                 elif z > li.layers[0].valid_range[1]:
-                    src, ok = -1, n == float(li.index_above)
+                    src, ok = -1, close(n, want_above, 4e-16, 0)
                 else:
-                    src, ok = -2, n == float(li.index_below)
+                    src, ok = -2, close(n, want_below, 4e-16, 0)
             except ValueError:
                 src, ok = -3, True
             cases.append("(match M.layer_at_depth %s %s with Some l -> Printf.printf \"%%h \" (float_of_int (natint (M.l_tag l))) | None -> print_string \"0x0p+0 \"); "
